@@ -60,6 +60,9 @@ func (c *Cluster) checkC05Conservation(n *SimNode) {
 		}
 		for _, tx := range e.Body.Transactions {
 			n.ownPayload[string(tx)]++
+			if debugTrace {
+				fmt.Fprintf(os.Stderr, "  c05: node %d own event #%d (epoch %d, scanned from %d) carries %s\n", n.idx, i, n.epoch, n.ownScanned, tx)
+			}
 		}
 		n.ownScanned = i
 	}
